@@ -185,4 +185,64 @@ theorem goRemove_sublist (lst r : List (Option TId)) (x : TId) (e : goRemove lst
     simpa using this
   · cases e
 
+theorem removed_take_count (arr : List (Option TId)) (idx len : Nat) (h1 : idx + 1 ≤ len) (h2 : len ≤ arr.length) (y : Option TId)
+    (hy : y ≠ arr.getD idx none) :
+    (((arr.take idx) ++ ((arr.drop (idx+1)).take (len - idx - 1)) ++ (arr.drop (len - 1))).take (len - 1)).count y = (arr.take len).count y := by
+  have hA : (arr.take idx).length = idx := by simp; omega
+  have hB : ((arr.drop (idx+1)).take (len - idx - 1)).length = len - idx - 1 := by simp; omega
+  have e1 : ((arr.take idx) ++ ((arr.drop (idx+1)).take (len - idx - 1)) ++ (arr.drop (len - 1))).take (len - 1)
+      = (arr.take idx) ++ ((arr.drop (idx+1)).take (len - idx - 1)) := by
+    rw [List.take_append_of_le_length (by simp; omega)]
+    apply List.take_of_length_le
+    simp; omega
+  rw [e1]
+  have e2 : arr.take len = arr.take idx ++ (arr.drop idx).take (len - idx) := by
+    have : len = idx + (len - idx) := by omega
+    conv => lhs; rw [this, List.take_add]
+  have hlt : idx < arr.length := by omega
+  have e3 : (arr.drop idx).take (len - idx) = arr[idx] :: (arr.drop (idx+1)).take (len - idx - 1) := by
+    rw [List.drop_eq_getElem_cons hlt]
+    have : len - idx = (len - idx - 1) + 1 := by omega
+    rw [this, List.take_succ_cons]
+    simp
+  rw [e2, e3, List.count_append, List.count_append, List.count_cons]
+  have hg : arr.getD idx none = arr[idx] := by simp [List.getD, hlt]
+  have : (arr[idx] == y) = false := by
+    rw [hg] at hy
+    simp; exact fun e => hy e.symm
+  simp [this]
+
+theorem goRemoveLoop_count_other (x : Option TId) (y : Option TId) (hxy : y ≠ x) :
+    ∀ (fuel idx : Nat) (arr : List (Option TId)) (len : Nat) (r : List (Option TId) × Nat),
+    len ≤ arr.length → goRemoveLoop x fuel idx arr len = some r → (r.1.take r.2).count y = (arr.take len).count y := by
+  intro fuel
+  induction fuel with
+  | zero => intro idx arr len r _ e; simp only [goRemoveLoop] at e; cases e; rfl
+  | succ n ih =>
+    intro idx arr len r hlen e
+    simp only [goRemoveLoop] at e
+    split at e
+    · rename_i hmatch
+      split at e
+      · cases e
+      · rename_i hp
+        have hp' : idx + 1 ≤ len := by omega
+        have hx : arr.getD idx none = x := by simpa using hmatch
+        have hc := removed_take_count arr idx len hp' hlen y (by rw [hx]; exact hxy)
+        obtain ⟨_, s2⟩ := removed_take_sublist arr idx len hp' hlen
+        rw [ih _ _ _ _ (by rw [s2]; omega) e]
+        exact hc
+    · exact ih _ _ _ _ hlen e
+
+/-- Go's in-place removal of `x` takes away occurrences of `x` only: every other entry occurs as often as before -/
+theorem goRemove_count_other (lst r : List (Option TId)) (x : TId) (e : goRemove lst x = some r) (y : Option TId) (hy : y ≠ some x) :
+    r.count y = lst.count y := by
+  unfold goRemove at e
+  split at e
+  · rename_i arr len h
+    cases e
+    have := goRemoveLoop_count_other (some x) y hy _ _ _ _ _ (Nat.le_refl _) h
+    simpa using this
+  · cases e
+
 end Bxh.Exec
